@@ -20,6 +20,7 @@ import CaddyModel.C12.IdResolve
 import CaddyModel.C12.SourceFacts
 import CaddyModel.C12.UniqueLemmas
 import CaddyModel.C12.RegionsProof
+import CaddyModel.C12.CanonLemmas
 import CaddyModel.C12.Witness
 
 namespace CaddyModel.C12
@@ -474,6 +475,34 @@ theorem unique_keys_preserved {env : Env} (ha : adaptUK env) {s : State} (h : Re
     | step r hb _ ih => exact uk_serve ha ih hb
   exact ⟨this.tree, this.loaded⟩
 
+/-- histories whose request bodies are in canonical form (keys strictly increasing) — the
+    form the model gives every decoded body -/
+inductive ReachableCN (env : Env) : State → Prop
+  | init : ReachableCN env initState
+  | step {s : State} (r : Req) : bodyCN r.body → ReachableCN env s → ReachableCN env (serve env r s).1
+
+/-- **canonical form is preserved.** Every operation of the API keeps every object's keys in
+    strictly increasing byte order (`insertSorted` for new keys, in-place replacement for
+    existing ones, deletion): after any such history the in-memory tree and the last loaded
+    configuration are canonical. -/
+theorem canonical_form_preserved {env : Env} (ha : adaptCN env) {s : State} (h : ReachableCN env s) :
+    canonical s.rawCfg = true ∧ ∀ j, s.rawCfgJSON = some j → canonical j = true := by
+  have : CNS s := by
+    induction h with
+    | init => exact cns_init
+    | step r hb _ ih => exact cn_serve ha ih hb
+  exact ⟨this.tree, this.loaded⟩
+
+/-- **the model's equality test is the code's.** `changeConfig` decides "unchanged" by
+    `bytes.Equal(rawCfgJSON, json.Marshal(rawCfg["config"]))`; `json.Marshal` prints a Go map
+    with its keys sorted, so the bytes are equal iff the two documents are equal *as nested
+    maps* (`mapEq`: same keys, equal values, whatever the order members happen to be listed
+    in). On canonical trees — which by `canonical_form_preserved` is all the model ever holds —
+    that is structural equality, the `==` the model uses. -/
+theorem same_config_test_is_map_equality {a b : Json} (ha : canonical a = true) (hb : canonical b = true) :
+    mapEq a b = true ↔ a = b :=
+  ⟨mapEq_eq a b ha hb, fun h => h ▸ mapEq_refl a ha⟩
+
 /-! ### an object tagged with @id is reachable under /id/ as that same object -/
 
 /-- the tagged object at position `segs` of the loaded document `j`, indexed under `t`, can
@@ -873,5 +902,12 @@ theorem id_race_is_refused_with_if_match :
 -- back to back the same request patches the tagged object
 example : cfgOf (regionRun raceEnv [(0, patchX []), (0, patchX [])] (RSys.start raceLoaded)).s.rawCfg =
     .obj [(kApps, .obj [(kC12, .obj [(kA, .arr [.obj [([118], .num [50])]])])])] := by decide
+
+-- canonical form / map equality: the same object with its members listed in two orders is `mapEq`
+-- but not `=`; only one of the two is canonical
+example : mapEq (.obj [([97], .null), ([98], .bool true)]) (.obj [([98], .bool true), ([97], .null)]) = true := by decide
+example : canonical (.obj [([97], .null), ([98], .bool true)]) = true ∧ canonical (.obj [([98], .bool true), ([97], .null)]) = false := by decide
+example : canonical exDoc = true := by decide
+example : ReachableCN exEnv exLoaded := .step _ (by show canonical exDoc = true; decide) .init
 
 end CaddyModel.C12
